@@ -133,9 +133,22 @@ def main():
         mod.run(ctx)
     except Exception:
         infra_error = traceback.format_exc()
-    finally:
-        if ctx.drv:
-            ctx.drv.close()
+    # failing-input search: a proof obligation or the correspondence broke, yet the property held on
+    # everything explored -> explore with the thorough budget (time-boxed) for a concrete violation
+    searched = False
+    if infra_error is None and not ctx.violations and (ctx.disagreements or not ok_props) \
+            and tier == 'quick' and ctx.drv is not None:
+        searched = True
+        ctx.tier = 'thorough'
+        ctx.deadline = time.time() + float(os.environ.get('VERIF_SEARCH_S', '150'))
+        try:
+            mod.run(ctx)
+        except Exception:
+            ctx.notes.append('failing-input search aborted: ' + traceback.format_exc()[-300:])
+        ctx.tier = tier
+        ctx.extra['failing_input_search'] = True
+    if ctx.drv:
+        ctx.drv.close()
 
     # ---- 4. decision -----------------------------------------------------------
     known = [k for k in C.load_known() if k.get('property') == prop and k.get('status') == 'known']
